@@ -55,6 +55,7 @@ async fn one_edit(
     mine: &mut Vec<(VaultId, SecretId)>,
     gone: &mut BTreeSet<SecretId>,
     allow_folder_ops: bool,
+    allow_rewrite: bool,
 ) -> Result<Edit, String> {
     w.clock_in(d);
     let before = {
@@ -65,7 +66,7 @@ async fn one_edit(
     {
         let mut a = w.devices[d].account.lock().await;
         let live_pool: Vec<(VaultId, SecretId)> = pool.iter().chain(mine.iter()).filter(|(_, s)| !gone.contains(s)).cloned().collect();
-        let choice = rng.weighted(&[30, 28, 16, 4, 4, 5, 5, if allow_folder_ops { 6 } else { 0 }, 5]);
+        let choice = rng.weighted(&[30, 28, 16, 4, 4, 5, 5, if allow_folder_ops { 6 } else { 0 }, 5, if allow_rewrite { 4 } else { 0 }]);
         match choice {
             1 if !live_pool.is_empty() => {
                 let (f, id) = *rng.pick(&live_pool);
@@ -116,6 +117,12 @@ async fn one_edit(
                 let name = format!("New folder {}", rng.token(5));
                 let fc = a.create_folder(NewFolderOptions::new(name.clone())).await.map_err(|e| format!("create_folder: {e}"))?;
                 edit.desc = format!("d{d}: create folder {} ({name})", fc.folder.id());
+            }
+            9 => {
+                let f = *rng.pick(folders);
+                a.compact_folder(&f).await.map_err(|e| format!("compact: {e}"))?;
+                edit.desc = format!("d{d}: compact folder {f}");
+                edit.effect = "rewrite";
             }
             8 if !live_pool.is_empty() && folders.len() > 1 => {
                 let (f, id) = *rng.pick(&live_pool);
@@ -210,6 +217,12 @@ pub async fn run(args: &Args, rep: &mut Reporter, prop: &'static str) {
         let mut log: Vec<String> = vec![];
         let mut history_ok = true;
         let mut any_divergent = false;
+        if prop == "C20" {
+            for d in 0..n {
+                let mut a = w.devices[d].account.lock().await;
+                let _ = a.initialize_search_index().await;
+            }
+        }
         // bring every device in sync with the server first
         for d in 1..n {
             let r = w.sync(d).await;
@@ -270,7 +283,8 @@ pub async fn run(args: &Args, rep: &mut Reporter, prop: &'static str) {
                 let (mine, gone) = (&mut mines[d], &mut gones[d]);
                 let mut m = std::mem::take(mine);
                 let mut g = std::mem::take(gone);
-                let r = one_edit(&mut w, d, &mut rng, &folders, &pool, &mut m, &mut g, allow_folder_ops).await;
+                let allow_rewrite = matches!(prop, "C02" | "C20") && rng.chance(1, 2);
+                let r = one_edit(&mut w, d, &mut rng, &folders, &pool, &mut m, &mut g, allow_folder_ops, allow_rewrite).await;
                 mines[d] = m;
                 gones[d] = g;
                 match r {
@@ -305,6 +319,12 @@ pub async fn run(args: &Args, rep: &mut Reporter, prop: &'static str) {
                     rep.count(&format!("sync:{}", r.class()), 1);
                     log.push(format!("round {round}: sync d{d} => {}", match &r { SyncResult::Ok(_) => "ok".to_string(), other => format!("{other:?}").chars().take(160).collect() }));
                     let ctx = json!({"backend": backend, "history": h, "phase": phase, "devices": n, "clock_mode": clock_mode, "log": log});
+                    if prop == "C02" {
+                        check_c02(rep, &w, d, backend, r.class(), &ctx).await;
+                    }
+                    if prop == "C20" {
+                        check_c20(rep, &w, d, backend, r.class(), &ctx).await;
+                    }
                     match &r {
                         SyncResult::Ok(_) => {
                             // safety: Ok => replica equals server now
@@ -679,4 +699,62 @@ async fn check_c05(
             }
         }
     }
+}
+
+
+/// C02 after a sync on device `d`: served folder == replay of its persisted log == persisted
+/// vault store, for every folder (merges, auto-merges, force merges, imports just happened).
+async fn check_c02(rep: &mut Reporter, w: &World, d: usize, backend: &str, sync_class: &str, ctx: &Value) {
+    let mut a = w.devices[d].account.lock().await;
+    let keys = match snapshot::folder_keys(&a).await {
+        Ok(k) => k,
+        Err(e) => {
+            rep.violation(&format!("C02:{backend}:after_sync:{}", e.class), &format!("device {d} after sync ({sync_class}): {}", e.detail), ctx.clone());
+            return;
+        }
+    };
+    let (live, _) = match snapshot::live(&mut a).await {
+        Ok(v) => v,
+        Err(e) => {
+            rep.violation(&format!("C02:{backend}:after_sync:served:{}", e.class), &format!("device {d} after sync ({sync_class}): {}", e.detail), ctx.clone());
+            return;
+        }
+    };
+    let target = w.devices[d].target.clone();
+    for (f, key) in &keys {
+        let Some(served) = live.folders.get(f) else { continue };
+        match snapshot::replay_folder(&a, f, key, None).await {
+            Ok(replayed) => {
+                rep.count("replay_comparisons", 1);
+                let mut dd = vec![];
+                snapshot::diff_folder(served, &replayed, f, &mut dd);
+                if let Some(first) = dd.first() {
+                    rep.violation(&format!("C02:{backend}:after_sync:replay_vs_served:{}", first.class), &format!("device {d} after sync ({sync_class}): {}", first.detail), ctx.clone());
+                }
+            }
+            Err(e) => rep.violation(&format!("C02:{backend}:after_sync:replay:{}", e.class), &format!("device {d} after sync ({sync_class}): {}", e.detail), ctx.clone()),
+        }
+        match snapshot::mirror_folder(&target, &w.account_id, f, key).await {
+            Ok(mirror) => {
+                rep.count("mirror_comparisons", 1);
+                let mut dd = vec![];
+                snapshot::diff_folder(served, &mirror, f, &mut dd);
+                if let Some(first) = dd.first() {
+                    rep.violation(&format!("C02:{backend}:after_sync:mirror_vs_served:{}", first.class), &format!("device {d} after sync ({sync_class}): {}", first.detail), ctx.clone());
+                }
+            }
+            Err(e) => rep.violation(&format!("C02:{backend}:after_sync:mirror:{}", e.class), &format!("device {d} after sync ({sync_class}): {}", e.detail), ctx.clone()),
+        }
+    }
+}
+
+/// C20 after a sync on device `d`: live index == recount from the served folders == rebuild.
+async fn check_c20(rep: &mut Reporter, w: &World, d: usize, backend: &str, sync_class: &str, ctx: &Value) {
+    let mut a = w.devices[d].account.lock().await;
+    let (live, _) = match snapshot::live(&mut a).await {
+        Ok(v) => v,
+        Err(_) => return,
+    };
+    let model = vmodel::model::AccountModel::from_view(live);
+    vmodel::index::check_index(rep, &a, &model, &[], backend, &format!("sync_{sync_class}"), ctx).await;
 }
